@@ -22,8 +22,8 @@ def units(lines):
     return out
 
 
-DEFS = {"ssink", "ssinkc", "csink", "const", "never", "map", "mapto", "filter", "filteropt", "merge", "orelse", "snapshot", "snapshot1", "snapshotn", "snaplazy", "gate",
-        "hold", "holdlazy", "once", "updates", "value", "mapc", "lift2", "liftn", "accum", "collect", "defer", "split", "switchs", "switchc", "switchlate", "switchlatec", "router", "route",
+DEFS = {"ssink", "ssinkc", "csink", "const", "never", "map", "mapto", "filter", "filteropt", "merge", "orelse", "snapshot", "snapshot1", "snapshotn", "snaplazy", "snapmapc", "gate",
+        "hold", "holdlazy", "once", "updates", "value", "mapc", "lift2", "liftn", "accum", "collect", "defer", "split", "switchs", "switchc", "switchlate", "switchlatec", "latelisten", "router", "route",
         "mklazy", "sloop", "cloop", "sloopclose", "cloopclose", "lazy", "accumlazy", "collectlazy"}
 
 
@@ -68,6 +68,13 @@ def variant(rng, lines):
     # extra clones / drops of unused handles and collections between the remaining units
     names = [n for d, _ in info for n in d if n[0] in "sc"]
     k2 = 0
+    # a handle that is no longer needed may be dropped later as well: postpone some drops to the end
+    late = []
+    kept = []
+    for u in rest:
+        if len(u) == 1 and u[0].startswith("drop ") and rng.random() < 0.5: late.append(u)
+        else: kept.append(u)
+    rest = kept + late
     for u in rest:
         if len(u) == 1 and rng.random() < 0.3 and names:
             x = rng.choice(names); k2 += 1
@@ -93,7 +100,7 @@ def check(tier, seed):
     rng = random.Random(seed * 97 + 9)
     n = 600 if tier == "quick" else 15000
     prof = apigen.profile(n_defs=(5, 12), n_listen=(2, 5), samples=0.4, max_defer=1, unlisten=0.0, obs=0.0,
-                          weights=dict(defer=1.5, switchs=1.5, switchc=0.7, switchlate=1.5, switchlatec=1.5, lift2=2, accum=1.5, hold=3, merge=5, once=1, sloop=0.5, cloop=0.5, router=0.5))
+                          rerequest=0.3, weights=dict(defer=1.5, switchs=1.5, switchc=0.7, switchlate=1.5, switchlatec=1.5, latelisten=1.5, lift2=2, accum=1.5, hold=3, merge=5, once=1, sloop=0.5, cloop=0.5, router=0.5))
     # one or two sinks feeding selectors and candidate cells at different depths: every send switches and updates
     # the old and the new inner cell at once
     fan = apigen.profile(n_defs=(8, 16), n_listen=(2, 4), samples=0.5, unlisten=0.0, obs=0.0, n_txn=(4, 10),
